@@ -35,7 +35,7 @@ def resolve_text(text, local, aliases, keymap=None):
     t, ident = rest.split("=", 1)
     return (local[idx], t, ident)
 
-INT_ATTRS = {"ValueRank": 8, "AccessLevel": 8, "EventNotifier": 8, "MinimumSamplingInterval": 32}
+INT_ATTRS = {"ValueRank": 32, "AccessLevel": 32, "EventNotifier": 8, "MinimumSamplingInterval": 32}
 
 def oracle_c01(g, ds, out, originals):
     """every declared node becomes exactly one faithful row"""
@@ -300,6 +300,9 @@ def oracle_case(case):
             if chk == "accesslevel":
                 a = dict(out[1][1][0][6]).get("AccessLevel")
                 return [("C01/attribute-int-wrapped", "AccessLevel=255 reported as %r" % (a,))] if a != ["i", "255"] else []
+            if chk == "sampling":
+                a = dict(out[1][1][0][6]).get("MinimumSamplingInterval")
+                return [("C01/attribute-int-wrapped", "MinimumSamplingInterval=3000000000 reported as %r" % (a,))] if a != ["i", "3000000000"] else []
             if chk == "duplicates":
                 t = [tuple(map(tuple, x)) for x in out[1][2]]
                 return [("C02/duplicated", "%d rows for %d distinct triples" % (len(t), len(set(t))))] if len(t) != len(set(t)) else []
